@@ -254,7 +254,7 @@ fn evaluate(eng: &Engine, items: &[Item], dir: &Path, stage: &str) -> Result<(u6
 pub fn run(eng: &Engine) {
     eng.set_rule("a corpus generated for the run (inputs from the data generator; frames from the three frame sources incl. multi-frame with skippable frames, truncated and bit-flipped ones) is processed by four driver binaries built from /repo with --no-default-features + {std,hash | std | hash | none}: compression at both levels through fragmenting Read sources, Read::take with the limit inside the data, Vec and &mut [u8] sinks (incl. a slice that fills up); decoding through decode_all, decode_blocks + collect_to_writer into a slow sink, StreamingDecoder read loops, read_exact (incl. EOF inside read_exact) and take + read_to_end; oracle: std vs no_std lines identical (same hash setting); hash vs no-hash: same outcome class, identical decoded data, compressor output identical after removing exactly the checksum flag bit and the 4 trailing bytes; non-trivial = the operation exercises a hand-written no_std routine on a boundary (fragmented reads, take limit mid-buffer, EOF inside read_exact, write_all into a full slice); distinct by (item, op) hash; evaluations = (item, operation) pairs");
     eng.assume("the four binaries are built by scripts/extra-C18.sh from /repo's working tree before this runs");
-    let n = eng.tier.pick(300, 8_000) as usize;
+    let n = eng.tier.pick(1_500, 20_000) as usize;
     let items = generate(eng, n);
     let dir = PathBuf::from(VERIF_ROOT).join("target/c18/corpus");
     let t0 = std::time::Instant::now();
